@@ -903,6 +903,21 @@ fn families_of(prop: &str, tier: Tier) -> Vec<Cfg> {
             n.dev = 1;
             n.watchdog_calls = 600;
             v.push(n);
+            // the broker runs its own QoS 2 deliveries with the same identifiers 1 and 2 while the client's exchanges
+            // with these identifiers wait for PUBCOMP; then the counter comes round
+            let mut ib = Cfg::base("C07-inbound-exchanges-with-the-same-identifiers");
+            ib.props = vec!["C07"];
+            ib.ops = vec![OpK::Pub2, OpK::Pub1, OpK::Poll, OpK::Age];
+            ib.io = IoMenu::benign();
+            ib.broker.script = vec![inpub(2, 1), inpub(2, 2), inpub(1, 1)];
+            ib.broker.pubcomp_last = true;
+            ib.broker.reorder_window = 2;
+            ib.max_ops = if q { 8 } else { 9 };
+            ib.max_conns = 1;
+            ib.max_reqs = 3;
+            ib.dev = 0;
+            ib.watchdog_calls = 600;
+            v.push(ib);
             // both tables full: eight exchanges waiting for PUBCOMP and seven (then eight) unanswered SUBSCRIBEs hold
             // up to sixteen consecutive identifiers; the counter comes round to any of them
             let mut t = Cfg::base("C07-sixteen-identifiers-held-then-counter-comes-round");
